@@ -26,13 +26,13 @@ PROPS = {
     "C04": {
         "title": "Everything runs exactly once and a completed run is quiescent",
         "lean": ["TopsimProps.SysSafety", "TopsimProps.C19", "TopsimProofs.Bridge.Queries"],
-        "streams": [("default", 32, 500), ("adversary", 24, 400), ("chaotic", 16, 300)],
+        "streams": [("default", 32, 500), ("adversary", 24, 400), ("chaotic", 16, 300), ("edge", 16, 300)],
         "monitor": ["C04"],
     },
     "C05": {
         "title": "Every feasible configuration terminates",
         "lean": ["TopsimProps.C05", "TopsimProofs.Bridge.Admission", "TopsimProofs.Bridge.BufferArith"],
-        "streams": [("feasible", 40, 800), ("tiering", 16, 200), ("samestep", 12, 150)],
+        "streams": [("feasible", 40, 800), ("tiering", 16, 200), ("samestep", 12, 150), ("edge", 32, 600)],
         "monitor": ["C05"],
     },
     "C06": {
@@ -45,13 +45,13 @@ PROPS = {
     "C07": {
         "title": "Buffer space is conserved and never over- or under-flows",
         "lean": ["TopsimProps.C07", "TopsimProofs.Bridge.BufferArith"],
-        "streams": [("default", 32, 500), ("sequential", 16, 200), ("overcommit", 8, 60)],
+        "streams": [("default", 32, 500), ("sequential", 16, 200), ("overcommit", 8, 60), ("edge", 24, 400)],
         "monitor": ["C07"],
     },
     "C08": {
         "title": "Observations start only when all resources are free, and on time when idle",
         "lean": ["TopsimProps.C08", "TopsimProofs.Bridge.Admission"],
-        "streams": [("default", 40, 600), ("contended", 16, 300), ("idlestart", 12, 150)],
+        "streams": [("default", 40, 600), ("contended", 16, 300), ("idlestart", 12, 150), ("edge", 32, 600)],
         "monitor": ["C08"],
     },
     "C09": {
@@ -83,7 +83,7 @@ PROPS = {
     "C13": {
         "title": "The event log is complete, correctly timed and causally ordered",
         "lean": ["TopsimProps.C13", "TopsimProps.Kernel"],
-        "streams": [("default", 32, 500), ("overlap", 16, 300), ("runlevel", 16, 300)],
+        "streams": [("default", 32, 500), ("overlap", 16, 300), ("runlevel", 16, 300), ("runlevel-paused", 24, 400)],
         "monitor": ["C13"],
     },
     "C14": {
@@ -130,5 +130,5 @@ PROPS = {
 
 DIRECT_N = {  # (quick, thorough)
     "c06": (150, 3000), "c14": (60, 1500), "c15": (0, 0), "c16": (80, 2000), "c18": (80, 2000),
-    "c10": (8, 60), "c11": (4, 30),
+    "c10": (16, 120), "c11": (4, 30),
 }
